@@ -47,3 +47,71 @@ package server
 //@ ensures {C18} result == nil && key != newkey ==> !hasRec(rmap, key)
 //@ ensures {C18} recsOK(rmap)
 //@ ensures {C18} forall k iface :: k != iface(key) && k != iface(newkey) ==> sm_dom[&rmap.Map][k] == old(sm_dom[&rmap.Map][k]) && sm_val[&rmap.Map][k] == old(sm_val[&rmap.Map][k])
+
+// ---------------------------------------------------------------- databases.go / server.go / database.go
+// Representation invariant of the example server (established by NewServer, preserved by every handler): every stored
+// database is a non-nil *Database with a non-nil record table that satisfies recsOK.
+
+//@ spec func dbOK(d ref) bool = d != nil && d.Records != nil && recsOK(d.Records)
+//@ spec func dbsOK(s ref) bool = s != nil && (forall k iface :: sm_dom[&s.Map][k] ==> typeis(sm_val[&s.Map][k], "*server.Database") && dbOK(unbox(sm_val[&s.Map][k], "*server.Database")))
+//@ spec func srvOK(s ref) bool = s != nil && s.Databases != nil && dbsOK(s.Databases)
+//@ spec func dbOf(s ref, id int) ref = unbox(sm_val[&s.Databases.Map][iface(id)], "*server.Database")
+
+//@ func NewRecords
+//@ assigns nothing
+//@ ensures {C18} result != nil && fresh(result) && (forall k iface :: !sm_dom[&result.Map][k])
+
+//@ func NewDatabaseWithID
+//@ assigns nothing
+//@ ensures {C18} result != nil && fresh(result) && result.ID == id && result.Records != nil && fresh(result.Records) && (forall k iface :: !sm_dom[&result.Records.Map][k])
+
+//@ func (*Databases).SetDatabase
+//@ requires db != nil
+//@ assigns sm_dom[&dbs.Map], sm_val[&dbs.Map]
+//@ ensures {C18} sm_dom[&dbs.Map][iface(db.ID)] && sm_val[&dbs.Map][iface(db.ID)] == iface(db)
+//@ ensures {C18} forall k iface :: k != iface(db.ID) ==> sm_dom[&dbs.Map][k] == old(sm_dom[&dbs.Map][k]) && sm_val[&dbs.Map][k] == old(sm_val[&dbs.Map][k])
+
+//@ func (*Databases).GetDatabase
+//@ assigns nothing
+//@ ensures {C18} result1 <==> (sm_dom[&dbs.Map][iface(id)] && typeis(sm_val[&dbs.Map][iface(id)], "*server.Database"))
+//@ ensures {C18} result1 ==> result0 == unbox(sm_val[&dbs.Map][iface(id)], "*server.Database")
+//@ ensures {C18} !result1 ==> result0 == nil
+
+//@ func (*Server).GetDatabase
+//@ requires {C18} srvOK(server)
+//@ assigns sm_dom[&server.Databases.Map], sm_val[&server.Databases.Map]
+//@ ensures {C18} err == nil && dbOK(result0) && srvOK(server)
+//@ ensures {C18} sm_dom[&server.Databases.Map][iface(id)] && result0 == dbOf(server, id)
+//@ ensures {C18} old(sm_dom[&server.Databases.Map][iface(id)]) ==> result0 == old(dbOf(server, id))
+//@ ensures {C18} !old(sm_dom[&server.Databases.Map][iface(id)]) ==> fresh(result0) && fresh(result0.Records) && (forall k iface :: !sm_dom[&result0.Records.Map][k])
+//@ ensures {C18} forall k iface :: k != iface(id) ==> sm_dom[&server.Databases.Map][k] == old(sm_dom[&server.Databases.Map][k]) && sm_val[&server.Databases.Map][k] == old(sm_val[&server.Databases.Map][k])
+
+// ---------------------------------------------------------------- generic.go: KEYS and SCAN select keys with the glob matcher (C17)
+
+// sync.Map.Range is external and calls the closure an unknown number of times: the effects of the closure (appending to the
+// captured slice) are over-approximated by its write set, hence the coarse frame.
+//@ func (*Records).Keys
+//@ assigns comp:E|Str, comp:C|Slice
+
+//@ func (*Server).Keys
+//@ requires {C18} srvOK(server) && conn != nil
+//@ assigns sm_dom[&server.Databases.Map], sm_val[&server.Databases.Map], comp:E|Str, comp:C|Slice
+//@ ensures {C18} srvOK(server)
+//@ ensures {C17} ascii(pattern) ==> err == nil
+//@ ensures {C17} err == nil ==> result0 != nil && result0.Type == proto.ArrayMessage && result0.array != nil
+//@ ensures {C17} err == nil ==> forall j int :: 0 <= j && j < len(result0.array.msgs) ==> result0.array.msgs[j] != nil && result0.array.msgs[j].Type == proto.BulkMessage && result0.array.msgs[j].bytes != nil && globMatch(pattern, string(result0.array.msgs[j].bytes))
+//@ loop 0
+//@   invariant r != nil && isGlob(r) && glob_of[r] == pattern && fresh(matchKeys) && 0 <= len(matchKeys)
+//@   invariant forall j int :: 0 <= j && j < len(matchKeys) ==> globMatch(pattern, matchKeys[j])
+
+//@ func (*Server).Scan
+//@ requires {C18} srvOK(server) && conn != nil
+//@ requires {C17} opt.MatchPattern != nil && isGlob(opt.MatchPattern)
+//@ assigns sm_dom[&server.Databases.Map], sm_val[&server.Databases.Map], comp:E|Str, comp:C|Slice
+//@ ensures {C18} srvOK(server)
+//@ ensures {C17} err == nil && result0 != nil && result0.Type == proto.ArrayMessage && result0.array != nil && len(result0.array.msgs) == 2
+//@ ensures {C17} result0.array.msgs[1] != nil && result0.array.msgs[1].Type == proto.ArrayMessage && result0.array.msgs[1].array != nil
+//@ ensures {C17} forall j int :: 0 <= j && j < len(result0.array.msgs[1].array.msgs) ==> result0.array.msgs[1].array.msgs[j] != nil && result0.array.msgs[1].array.msgs[j].bytes != nil && globMatch(glob_of[opt.MatchPattern], string(result0.array.msgs[1].array.msgs[j].bytes))
+//@ loop 0
+//@   invariant matchKeys != nil && fresh(matchKeys) && fresh(matchKeys.msgs) && allocated(matchKeys.msgs) && matchKeys.index == 0
+//@   invariant forall j int :: 0 <= j && j < len(matchKeys.msgs) ==> matchKeys.msgs[j] != nil && fresh(matchKeys.msgs[j]) && matchKeys.msgs[j].bytes != nil && globMatch(glob_of[opt.MatchPattern], string(matchKeys.msgs[j].bytes))
